@@ -148,6 +148,38 @@ Theorem C17_tables_as_documented :
 Proof. repeat split; intros []; reflexivity. Qed.
 Print Assumptions C17_tables_as_documented.
 
+(* ---- the entry points are declared with the documented parameters, in the documented order
+   (docstrings of queries.py / README "Creating Tables"): the harness calls them positionally in this
+   order and by these keywords; a signature that drifts from it breaks this theorem ---- *)
+Theorem C17_signatures_as_documented :
+  signatures =
+  [ ("create.create_table", ["table"]);
+    ("create.columns", ["*columns"]);
+    ("create.period_for", ["name"; "start_column"; "end_column"]);
+    ("create.unique", ["*columns"]);
+    ("create.primary_key", ["*columns"]);
+    ("create.foreign_key", ["columns"; "reference_table"; "reference_columns"; "on_delete"; "on_update"]);
+    ("create.as_select", ["query_builder"]);
+    ("index.create_index", ["index"]);
+    ("index.columns", ["*columns"]);
+    ("index.on", ["table"]);
+    ("index.where", ["criterion"]);
+    ("drop.drop_database", ["database"]);
+    ("drop.drop_table", ["table"]);
+    ("drop.drop_user", ["user"]);
+    ("drop.drop_view", ["view"]);
+    ("drop.drop_index", ["index"]);
+    ("drop.drop_dictionary", ["dictionary"]);
+    ("drop.drop_quota", ["quota"]);
+    ("drop.on_cluster", ["cluster"]);
+    ("Column", ["column_name"; "column_type"; "nullable"; "default"]);
+    ("PeriodFor", ["name"; "start_column"; "end_column"]);
+    ("Index", ["name"; "alias"]);
+    ("Table", ["name"; "schema"; "alias"; "query_cls"]);
+    ("Database", ["name"; "parent"]) ].
+Proof. reflexivity. Qed.
+Print Assumptions C17_signatures_as_documented.
+
 (* ---- non-vacuity: a program using every construct, in a scrambled order, on every class ---- *)
 Definition ex_calls : list ccall :=
   [ KIfNotExists;
